@@ -190,6 +190,7 @@ type nsSim struct {
 	flags      map[string]bool
 	foreign    map[string]bool
 	outOfModel string
+	addKind    map[uint64]pb.ConfigChangeType
 	votesSent  int
 	dropped    int
 }
@@ -207,6 +208,7 @@ func newNsSim(t *rapid.T, st *vfhelp.Stats, armed []string, opts nsOpts) *nsSim 
 		ccSeen:     map[uint64]bool{},
 		flags:      map[string]bool{},
 		foreign:    map[string]bool{},
+		addKind:    map[uint64]pb.ConfigChangeType{},
 	}
 	for _, a := range armed {
 		s.armed[a] = true
@@ -976,6 +978,28 @@ func (s *nsSim) snapshotReq(r *nsReplica, timeout uint64) *nsReq {
 	return q
 }
 
+// spareFor returns a replica id that may be added with the given kind: never
+// started, not a member, not removed, and never requested with another kind (a
+// replica that joins has to be started with the kind it was added with; the
+// harness keeps the operator out of the undocumented "added as non-voting,
+// promoted before it was ever started" corner).
+func (s *nsSim) spareFor(kind pb.ConfigChangeType) uint64 {
+	mem, _ := s.latestMembership()
+	for id := uint64(s.opts.voters) + 1; id <= nsMaxID; id++ {
+		_, v := mem.Addresses[id]
+		_, nv := mem.NonVotings[id]
+		if v || nv || mem.Removed[id] || s.reps[id].started {
+			continue
+		}
+		if k, ok := s.addKind[id]; ok && k != kind {
+			continue
+		}
+		s.addKind[id] = kind
+		return id
+	}
+	return 0
+}
+
 func (s *nsSim) transfer(r *nsReplica, target uint64) {
 	if !r.alive {
 		return
@@ -1088,6 +1112,7 @@ func (s *nsSim) fairPhase(clientPick func(n int) int) {
 		r.stalled = false
 	}
 	operator()
+	leaderAtStart := s.leader() != nil
 	// stage A
 	budgetA := 60 * E
 	minA := 8 * E
@@ -1105,10 +1130,25 @@ func (s *nsSim) fairPhase(clientPick func(n int) int) {
 		if s.classifyStuck() {
 			return
 		}
-		s.violate("nodesim-no-leader-in-fair-phase", "all links healed, all replicas running for %d ticks without client activity: nobody is leader; %s", budgetA, s.describe())
-		return
+		if s.allQuiescent() {
+			// every running voting member is quiescent and none is leader: nobody campaigns
+			// until a request arrives (findings/E9.md, Q1)
+			if leaderAtStart {
+				s.flag("q1-leader-lost-in-fair-phase")
+			} else {
+				s.flag("q1-no-leader-when-faults-ended")
+			}
+			if !s.known("nodesim-idle-quiescent-shard-stays-leaderless",
+				"all running voting members are quiescent and none of them is leader (a leader existed when the faults ended: %t): nobody campaigns (QuiescedTick) until a client request arrives, %d fault free ticks so far; %s", leaderAtStart, budgetA, s.describe()) {
+				return
+			}
+		} else {
+			s.violate("nodesim-no-leader-in-fair-phase", "all links healed, all replicas running for %d ticks without client activity: nobody is leader (a leader existed when the faults ended: %t); %s", budgetA, leaderAtStart, s.describe())
+			return
+		}
+	} else {
+		s.flag("fair-leader-exists")
 	}
-	s.flag("fair-leader-exists")
 	// stage B
 	budgetB := 340 * E
 	var client *nsReplica
@@ -1191,6 +1231,22 @@ func (s *nsSim) fairPhase(clientPick func(n int) int) {
 		return
 	}
 	s.violate("nodesim-replica-not-caught-up", "a running member replica did not catch up to applied index %d within %d fault free ticks; %s", s.maxApplied(), budgetB, s.describe())
+}
+
+// allQuiescent: every running voting member (by its own applied membership) is
+// quiescent.
+func (s *nsSim) allQuiescent() bool {
+	n := 0
+	for _, r := range s.aliveReps() {
+		if _, ok := r.n.sm.GetMembership().Addresses[r.id]; !ok {
+			continue
+		}
+		n++
+		if !r.n.qs.quiesced() {
+			return false
+		}
+	}
+	return n > 0
 }
 
 // classifyStuck recognises the shapes of the recorded findings F2 and F5 (F4
